@@ -1,6 +1,7 @@
 package uisim
 
 import (
+	"math"
 	"encoding/json"
 	"fmt"
 	"math/big"
@@ -249,7 +250,7 @@ func (p *policy) disCommand() string {
 		return spaced(r, pick(r, "entrypoint", "entry"))
 	case 4:
 		pats := []string{"add", "x1", "Block", "ld", "^$", "0x", "x[0-9]+, x0", ".", "zzzz", "Block 1", "s[bhwd] ", "\\|", "[", "j", "beq|bne",
-			".*", "x*", "q?", "(add|sub|ld)", "[0-9A-F][0-9A-F] [0-9A-F][0-9A-F]", "Block [2-9]", "x3[01]?", "lw|ld|sd|sw"}
+			".*", "x*", "q?", "(add|sub|ld)", "x1,", "x2,", "x3,", "1:", "0:", "x1,|x2,", "2:", ",", ":", "[0-9A-F][0-9A-F] [0-9A-F][0-9A-F]", "Block [2-9]", "x3[01]?", "lw|ld|sd|sw"}
 		if r.Chance(1, 4) {
 			return spaced(r, pick(r, "find", "f", "/"), pick(r, pats...), pick(r, pats...))
 		}
@@ -329,6 +330,24 @@ func (p *policy) addressArg() string {
 	if r.Chance(1, 5) {
 		return pick(r, "5", "0", "x", "0x", "0b", "-1", "1_000", "0x1g", "08", "18446744073709551616", "0b12", "", "0xFFFFFFFFFFFFFFFF", "07", "00",
 			"0o17", "0O7", "0x_ff", "0x1_0", "0_7", "0b1_0", "+5", "0x-1", " 5", "1e3", "0x10000000000000000", "0b"+strings.Repeat("1", 65))
+	}
+	if r.Chance(1, 12) {
+		// a well-formed number with a blank that is not a space glued to it
+		// (the command line is split at spaces only)
+		n := p.addressArg() // mostly an address that is really stored
+		if len(n) > 200 {
+			n = "0x10010"
+		}
+		ws := pick(r, "\t", "\v", "\f", "\u00a0", "\u2003", "\u0085")
+		switch r.Intn(3) {
+		case 0:
+			return n + ws
+		case 1:
+			return ws + n
+		default:
+			k := r.Intn(len(n) + 1)
+			return n[:k] + ws + n[k:]
+		}
 	}
 	var a uint64
 	if r.Chance(1, 25) { // a very long spelling (thousands of leading zeros)
@@ -492,7 +511,12 @@ func (p *policy) choose(o *Obs) Ev {
 		if p.prop == "C32" {
 			v = "mem"
 		}
-		emit(Ev{K: "render", V: v, N: r.Intn(41)})
+		n := r.Intn(41)
+		if r.Chance(1, 12) {
+			// "as much as you like": heights no screen has
+			n = []int{1 << 50, 1 << 60, math.MaxInt - 1, math.MaxInt}[r.Intn(4)]
+		}
+		emit(Ev{K: "render", V: v, N: n})
 	}
 	if o.Kind == pCommand && (p.prop == "C32" || p.prop == "C30") && r.Chance(1, 3) {
 		// direct memory-view driver over a seeded memory (executed by the
